@@ -749,7 +749,9 @@ func (ex *Exec) nonlinear(op, a, b string, w int) string {
 	bvs := fmt.Sprintf("(_ BitVec %d)", w)
 	vc.declareFun(name, "("+bvs+" "+bvs+")", bvs)
 	zero, one := fmt.Sprintf("(_ bv0 %d)", w), fmt.Sprintf("(_ bv1 %d)", w)
-	q := func(body string) string { return fmt.Sprintf("(forall ((x %s)) (! %s :pattern (%s)))", bvs, body, "PAT") }
+	q := func(body string) string {
+		return fmt.Sprintf("(forall ((x %s)) (! %s :pattern (%s)))", bvs, body, "PAT")
+	}
 	_ = q
 	ax := func(id, pat, body string) {
 		vc.addAxiom(name+"_"+id, fmt.Sprintf("(forall ((x %s)) (! %s :pattern (%s)))", bvs, body, pat), name)
